@@ -95,10 +95,12 @@ pub fn run_body(ctx: &Arc<RunCtx>, body: &[Bop], dispatcher: Option<&dyn Dispatc
         match op {
             Bop::Nop => {}
             Bop::Panic => {
+                crate::lock::cb_point("client.op");
                 ctx.log("PANIC".to_string());
                 std::panic::resume_unwind(Box::new("scripted panic"));
             }
             Bop::Dispatch(e, a) => {
+                crate::lock::cb_point("client.op");
                 dispatch_via(ctx, *e, *a, dispatcher);
             }
         }
